@@ -1,0 +1,22 @@
+//go:build verif
+
+// Contracts for the deductive verification in /verif (govc): TLS name tables (property C33:
+// every value the encoder can emit must decode to the same value). This file contains comments
+// only; it is compiled only with -tags verif and declares nothing.
+
+package tls
+
+// nameForHash / nameForSignature emit "unknown.<n>" for every id 0..255 that has no table
+// entry; the decoders must therefore parse a decimal number of up to 255: base 10 and an
+// integer width that holds 255 (strconv.ParseInt: bitSize 0 = int, otherwise at least 9 bits
+// for a signed result). Partial claims: only these call-site assertions are obligations.
+//@ func hashToName
+//@   maypanic
+//@   modifies all
+//@   claims at
+//@   at call ParseInt assert arg1 == 10 && (arg2 == 0 || arg2 >= 9)
+//@ func signatureToName
+//@   maypanic
+//@   modifies all
+//@   claims at
+//@   at call ParseInt assert arg1 == 10 && (arg2 == 0 || arg2 >= 9)
